@@ -398,6 +398,10 @@ func init() {
 	reg(zz+"BigLt", func(fr *frame, args []value) value {
 		return mkSym(term.IntCmp("<", bigOf(args[0]), bigOf(args[1])), types.Bool)
 	})
+	reg(zz+"HashForkOff", func(fr *frame, args []value) value {
+		fr.i.ps.NoHashFork = true
+		return nil
+	})
 	reg(zz+"PermuteMaps", func(fr *frame, args []value) value {
 		fr.i.ps.PermMaps = args[0].(bool)
 		return nil
